@@ -91,6 +91,57 @@ func (e *Engine) installExternals() {
 		smap(p).insert(e, a[1], a[2])
 		return Tuple{a[2], false}
 	}
+	x["(*sync.Map).Swap"] = func(fr *frame, a []Value) Value {
+		p := a[0].(*Value)
+		e.opLock(fr.g, p, "sync.Map")
+		defer e.opUnlock(fr.g, p)
+		prev, ok := smap(p).lookup(e, a[1])
+		smap(p).insert(e, a[1], a[2])
+		if !ok {
+			return Tuple{Iface{}, false}
+		}
+		return Tuple{prev, true}
+	}
+	x["(*sync.Map).LoadAndDelete"] = func(fr *frame, a []Value) Value {
+		p := a[0].(*Value)
+		e.opLock(fr.g, p, "sync.Map")
+		defer e.opUnlock(fr.g, p)
+		prev, ok := smap(p).lookup(e, a[1])
+		if !ok {
+			return Tuple{Iface{}, false}
+		}
+		smap(p).delete(e, a[1])
+		return Tuple{prev, true}
+	}
+	x["(*sync.Map).CompareAndSwap"] = func(fr *frame, a []Value) Value {
+		p := a[0].(*Value)
+		e.opLock(fr.g, p, "sync.Map")
+		defer e.opUnlock(fr.g, p)
+		prev, ok := smap(p).lookup(e, a[1])
+		if !ok || !e.branch(e.equals(anyType, prev, a[2])) {
+			return false
+		}
+		smap(p).insert(e, a[1], a[3])
+		return true
+	}
+	x["(*sync.Map).CompareAndDelete"] = func(fr *frame, a []Value) Value {
+		p := a[0].(*Value)
+		e.opLock(fr.g, p, "sync.Map")
+		defer e.opUnlock(fr.g, p)
+		prev, ok := smap(p).lookup(e, a[1])
+		if !ok || !e.branch(e.equals(anyType, prev, a[2])) {
+			return false
+		}
+		smap(p).delete(e, a[1])
+		return true
+	}
+	x["(*sync.Map).Clear"] = func(fr *frame, a []Value) Value {
+		p := a[0].(*Value)
+		e.opLock(fr.g, p, "sync.Map")
+		e.syncMaps[p] = newMap(anyType)
+		e.opUnlock(fr.g, p)
+		return nil
+	}
 	x["(*sync.Map).Delete"] = func(fr *frame, a []Value) Value {
 		p := a[0].(*Value)
 		e.opLock(fr.g, p, "sync.Map")
